@@ -773,6 +773,11 @@ func (data *Data) CreateShardGroup(database, policy string, timestamp time.Time)
 
 	startTime := timestamp.Truncate(rpi.ShardGroupDuration).UTC()
 	endTime := startTime.Add(rpi.ShardGroupDuration).UTC()
+	if startTime.Before(time.Unix(0, models.MinNanoTime)) {
+		// Keep the start representable as int64 nanoseconds (it is persisted as such);
+		// no point can be older than MinNanoTime.
+		startTime = time.Unix(0, models.MinNanoTime).UTC()
+	}
 	if endTime.After(time.Unix(0, models.MaxNanoTime)) {
 		// Shard group range is [start, end) so add one to the max time.
 		endTime = time.Unix(0, models.MaxNanoTime+1)
